@@ -616,8 +616,14 @@ func (fr *Frame) anchor(st *State, kind, target string, idx int) {
 	if kind == "store" {
 		key = fmt.Sprintf("store:%s[%d]", target, idx)
 	}
-	fr.cnt[key]++
-	n := fr.cnt[key]
+	if st.cnt == nil {
+		st.cnt = map[string]int{}
+	}
+	if kind == "block" {
+		st.cnt[key] = fr.cnt[key] // block anchors are positional (set by the caller)
+	}
+	st.cnt[key]++
+	n := st.cnt[key]
 	for ci, c := range fr.c.Cuts {
 		if c.Kind != kind || c.Target != target || c.Ord != n {
 			continue
@@ -904,7 +910,9 @@ func (fr *Frame) scratchBody(st *State, h *ssa.BasicBlock, body map[*ssa.BasicBl
 	// run from header; stop when returning to the header or leaving the loop
 	saveLoops := fr.c.Loops
 	fr.c.Loops = map[int]*Annot{} // no invariants during scratch (nested loops must be unrollable or are unsupported)
-	defer func() { fr.c.Loops = saveLoops }()
+	saveStop := fr.scratchStop
+	fr.scratchStop = h
+	defer func() { fr.c.Loops = saveLoops; fr.scratchStop = saveStop }()
 	// execute header instructions then successors; treat header as stop for back edges
 	var term ssa.Instruction
 	for _, ins := range h.Instrs {
